@@ -168,6 +168,12 @@ def gen_stop_switch():
             asg = [s for s in stmts if s.get("kind") == "BinaryOperator" and s.get("opcode") == "="]
             if len(asg) == 1 and refname(asg[0]["inner"][0]) == "r" and refname(asg[0]["inner"][1]) == "0":
                 kinds_here = "SK_wait"
+        if kinds_here is None and labels == ["default"] and not cs:
+            # default: r = REPROC_EINVAL; break;
+            asg = [s for s in stmts if s.get("kind") == "BinaryOperator" and s.get("opcode") == "="]
+            if len(asg) == 1 and refname(asg[0]["inner"][0]) == "r" and refname(asg[0]["inner"][1]) == "REPROC_EINVAL" \
+               and any(s.get("kind") == "BreakStmt" for s in stmts):
+                kinds_here = "SK_invalid"
         if kinds_here is None:
             raise Mismatch("reproc_stop: case %s not recognised (calls %s)" % (labels, cs))
         for l in labels:
